@@ -34,9 +34,10 @@ def TestOneInput(data):
         fmt, text = c10.corpus_text(src)
         _cache[si] = (fmt, text, c10._orig(fmt, text))
     fmt, text, snaps = _cache[si]
-    nf = fdp.ConsumeIntInRange(1, 3)
+    nf = fdp.ConsumeIntInRange(1, 2)      # single or double faults of one kind, as in the `faults` leg (three deletions can merge two xyz frames into a well-formed third)
     damaged = text
     faults = []
+    del_in_uncounted = False
     for _ in range(nf):
         k = fdp.ConsumeIntInRange(0, 6)
         if k == 0:
@@ -53,9 +54,19 @@ def TestOneInput(data):
             # duplicate another, delete a token + insert one: every count is kept and the file is well-formed with other content):
             # no count-based reader can notice - outside the fault model.  A sequence consists of faults of ONE kind.
             continue
+        if fault[0] == "del" and faults:
+            # second deletion: not inside an uncounted block when the first one was (a complete record of such a block could vanish)
+            ls_ = damaged.splitlines()
+            unc = c10.uncounted_lines(fmt, ls_)
+            if unc and (fault[1][0] % len(ls_)) in unc and del_in_uncounted:
+                continue
         d2 = c10.apply_fault(fmt, damaged, fault)
         if d2 is None:
             continue
+        if fault[0] == "del":
+            ls_ = damaged.splitlines()
+            if (fault[1][0] % len(ls_)) in c10.uncounted_lines(fmt, ls_):
+                del_in_uncounted = True
         faults.append(fault)
         damaged = d2
     COUNT[0] += 1
